@@ -3,6 +3,8 @@ C28 — the waiter invariant is preserved by every action.
 -/
 import TdModel.Lemmas.C28c
 
+set_option linter.unusedSimpArgs false
+
 namespace TdModel.C27
 
 theorem winv_setPc_nokey {t : State} (hI : WInv t) (i : Nat) (x : Caller) (p : PC) (hx : t.callers[i]? = some x)
@@ -34,10 +36,11 @@ theorem winv_handOut_leave {cfg : Cfg} {s t : State} (hI : WInv s) (j : Nat) (x 
   · exact winv_leave hI j x _ kj hx hxk rfl hc hr hr' hi hf hm ht hg hn
   · exact winv_leave hI j x _ kj hx hxk rfl hc hr hr' hi hf hm ht hg hn
 
-theorem winv_step (cfg : Cfg) {s s' : State} (a : Action) (hI : WInv s) (h : step cfg s a = some s') : WInv s' := by
+theorem winv_step {cfg : Cfg} (hgood : Good cfg) {s s' : State} (a : Action) (hI : WInv s) (h : step cfg s a = some s') : WInv s' := by
+  obtain ⟨_, _, hgB, hgT, hgR⟩ := hgood
   cases a with
   | start i =>
-    simp only [step] at h
+    simp only [step, markDeadCfg_good hgR, hgB, hgT, if_true] at h
     split at h
     · rename_i x hx
       split at h
@@ -45,7 +48,7 @@ theorem winv_step (cfg : Cfg) {s s' : State} (a : Action) (hI : WInv s) (h : ste
       · cases h
     · cases h
   | enter i =>
-    simp only [step] at h
+    simp only [step, markDeadCfg_good hgR, hgB, hgT, if_true] at h
     split at h
     · rename_i x hx
       split at h
@@ -120,7 +123,7 @@ theorem winv_step (cfg : Cfg) {s s' : State} (a : Action) (hI : WInv s) (h : ste
       · cases h
     · cases h
   | mk i =>
-    simp only [step] at h
+    simp only [step, markDeadCfg_good hgR, hgB, hgT, if_true] at h
     split at h
     · rename_i x hx
       split at h
@@ -131,7 +134,7 @@ theorem winv_step (cfg : Cfg) {s s' : State} (a : Action) (hI : WInv s) (h : ste
       · cases h
     · cases h
   | check i =>
-    simp only [step] at h
+    simp only [step, markDeadCfg_good hgR, hgB, hgT, if_true] at h
     split at h
     · rename_i x hx
       split at h
@@ -141,7 +144,7 @@ theorem winv_step (cfg : Cfg) {s s' : State} (a : Action) (hI : WInv s) (h : ste
       · cases h
     · cases h
   | cwake i b =>
-    simp only [step] at h
+    simp only [step, markDeadCfg_good hgR, hgB, hgT, if_true] at h
     split at h
     · rename_i x hx
       split at h
@@ -171,7 +174,7 @@ theorem winv_step (cfg : Cfg) {s s' : State} (a : Action) (hI : WInv s) (h : ste
       · cases h
     · cases h
   | wwake i b =>
-    simp only [step] at h
+    simp only [step, markDeadCfg_good hgR, hgB, hgT, if_true] at h
     split at h
     · rename_i x hx
       split at h
@@ -209,7 +212,7 @@ theorem winv_step (cfg : Cfg) {s s' : State} (a : Action) (hI : WInv s) (h : ste
       · cases h
     · cases h
   | giveup i ko =>
-    simp only [step] at h
+    simp only [step, markDeadCfg_good hgR, hgB, hgT, if_true] at h
     split at h
     · rename_i x hx
       split at h
@@ -246,7 +249,7 @@ theorem winv_step (cfg : Cfg) {s s' : State} (a : Action) (hI : WInv s) (h : ste
       · cases h
     · cases h
   | finish i r ko =>
-    simp only [step] at h
+    simp only [step, markDeadCfg_good hgR, hgB, hgT, if_true] at h
     split at h
     · rename_i x hx
       split at h
@@ -263,24 +266,24 @@ theorem winv_step (cfg : Cfg) {s s' : State} (a : Action) (hI : WInv s) (h : ste
       · cases h
     · cases h
   | ready d =>
-    simp only [step] at h
+    simp only [step, markDeadCfg_good hgR, hgB, hgT, if_true] at h
     split at h
     · cases h; exact winv_same hI rfl rfl rfl rfl rfl rfl rfl rfl
     · cases h
   | die d =>
-    simp only [step] at h
+    simp only [step, markDeadCfg_good hgR, hgB, hgT, if_true] at h
     split at h
     · cases h; exact winv_markDead hI d
     · cases h
   | cancel i =>
-    simp only [step] at h
+    simp only [step, markDeadCfg_good hgR, hgB, hgT, if_true] at h
     split at h
     · rename_i x hx
       cases h
       exact winv_pc hI i x { x with cancelled := true } hx (fun _ _ h => h) (fun _ h => h)
     · cases h
   | bg d rel ko =>
-    simp only [step] at h
+    simp only [step, markDeadCfg_good hgR, hgB, hgT, if_true] at h
     split at h
     · rename_i cn hcn
       split at h
@@ -300,14 +303,14 @@ theorem winv_step (cfg : Cfg) {s s' : State} (a : Action) (hI : WInv s) (h : ste
       · cases h
     · cases h
 
-theorem winv_run (cfg : Cfg) (as : List Action) {s s' : State} (hI : WInv s) (h : run cfg s as = some s') :
+theorem winv_run {cfg : Cfg} (hgood : Good cfg) (as : List Action) {s s' : State} (hI : WInv s) (h : run cfg s as = some s') :
     WInv s' := by
   induction as generalizing s with
   | nil => simp [run] at h; subst h; exact hI
   | cons a as ih =>
     simp only [run] at h
     split at h
-    · rename_i s1 h1; exact ih (winv_step cfg a hI h1) h
+    · rename_i s1 h1; exact ih (winv_step hgood a hI h1) h
     · cases h
 
 end TdModel.C27
